@@ -388,7 +388,7 @@ class MemoryFieldArray:
         """
         if self._dataset is None:
             # raise ValueError("Cannot get data from an empty Field")
-            return np.zeros(0, dtype=np.uint8)
+            return np.zeros(0, dtype=self._dtype)
         return self._dataset[item]
 
     def __setitem__(self, key, value):
@@ -785,10 +785,10 @@ class IndexedStringMemField(MemoryField):
     def values(self):
         """
         Get values for field
-        :return: MemoryFieldArray('8')
+        :return: MemoryFieldArray('uint8')
         """
         if self._value_wrapper is None:
-            self._value_wrapper = MemoryFieldArray('int8')
+            self._value_wrapper = MemoryFieldArray('uint8')
         return self._value_wrapper
 
     def __len__(self):
